@@ -354,7 +354,6 @@ Proof.
       * rewrite <- skipn_skipn2, Hzx, skipn_app, skipn_all.
         replace (length lx - length lx)%nat with 0%nat by lia. cbn [app skipn]. reflexivity.
       * unfold lx, blen. rewrite !app_length. cbn [length]. rewrite app_length. cbn [length]. lia.
-  - unfold depth in *. lia.
   - rewrite Hpt. cbn [bind]. eauto.
 Qed.
 
